@@ -14,6 +14,8 @@ def dispatch (st : DState) (line : String) : DState × String :=
   | "prf" :: rest => (st, prfReq st.tables rest)
   | "hash" :: rest => (st, hashReq st.tables rest)
   | "aes" :: rest => (st, aesReq st.tables rest)
+  | "ffx" :: rest => (st, ffxReq st.tables rest)
+  | "lr" :: rest => (st, lrReq st.tables rest)
   | _ => (st, Proto.bad)
 
 partial def loop (hin : IO.FS.Stream) (hout : IO.FS.Stream) (st : DState) : IO Unit := do
